@@ -20,6 +20,7 @@ EXPLANATION = (
     "(4) a ListBox body either gets its 'modified' signal connected to _invalidate or caching is switched off. "
     "(5) CanvasCache.store registers the widget as dependant of every dependency before recording the canvas and refuses to record when a dependency is uncached; "
     "CanvasCache.invalidate drops the widget's entry and recurses into every saved dependant."
+    " Added after seed round 3: (1e) INV-LAYER - state switched inside a render closure and read by an inherited render() that is cached without the focus flag (Text.ignore_focus under Edit) changes only together with _invalidate(); (6) CanvasCache.cleanup drops a widget's _deps entry under exactly the conditions under which it drops its _widgets entry; (7) a size-keyed layout memo is not used in the cases in which the memoised computation consults a child (Columns with PACK columns)."
 )
 NOT_DECIDED = (
     "That cached and fresh renderings are equal for all widget trees and histories (needs the value semantics of rendering); that the cascade reaches the right widgets "
